@@ -193,7 +193,12 @@ where
         self.clear_line(false)?;
 
         if let Some(editor) = self.editor.as_mut() {
-            self.writer.flush_str(editor.text())?;
+            self.writer.write_str(editor.text())?;
+            // return terminal cursor to the position of editor cursor
+            for _ in editor.cursor()..editor.len() {
+                self.writer.write_bytes(codes::CURSOR_BACKWARD)?;
+            }
+            self.writer.flush()?;
         }
 
         Ok(())
@@ -215,7 +220,12 @@ where
         }
         self.writer.write_str(self.prompt)?;
         if let Some(editor) = self.editor.as_mut() {
-            self.writer.flush_str(editor.text())?;
+            self.writer.write_str(editor.text())?;
+            // return terminal cursor to the position of editor cursor
+            for _ in editor.cursor()..editor.len() {
+                self.writer.write_bytes(codes::CURSOR_BACKWARD)?;
+            }
+            self.writer.flush()?;
         }
 
         Ok(())
